@@ -42,6 +42,12 @@ func Ledger(run *vh.Run, which string) {
 		v := variants[wi%len(variants)]
 		ledgerWorld(run, which, label, wi, v, blocksPer)
 	}
+	for k := 0; k < run.N(6, 40); k++ {
+		label := fmt.Sprintf("min-gas-price-%d", k)
+		if run.WantCase(label) {
+			minGasPriceLeg(run, which, label, k)
+		}
+	}
 	if which == "C04" {
 		run.Rule = "Generated Ethereum transactions (transfers, calls to generated contracts, creates; all fee shapes; gas limits from intrinsic-1 to far above gas used; values up to and above balance; invalid nonces/fees) in multi-tx blocks on the real app; at every tx boundary the observer records total supply of every denom, balances of all tracked accounts, fee collector and EVM module account. Non-trivial = distinct (tx kind x outcome class x fee kind x block-gas variant) with unused gas > 0 or a deletion."
 		run.Floor("eth transactions that reached execution", run.Get("tx_executed"), int64(run.N(300, 5000)))
@@ -51,6 +57,7 @@ func Ledger(run *vh.Run, which string) {
 		run.Rule = "Same generated workload as C04; per admitted Ethereum transaction the sender's balance delta is compared with receipt gas used x independently recomputed effective price + value moved; rejected transactions must have an empty write set; gas used within [intrinsic, limit]; consensus GasUsed == receipt gas used; cumulative gas == running sum. Non-trivial = distinct (tx type x fee kind x outcome class)."
 		run.Floor("eth transactions that reached execution", run.Get("tx_executed"), int64(run.N(300, 5000)))
 		run.Floor("rejected transactions checked for empty write set", run.Get("tx_rejected"), int64(run.N(40, 600)))
+		run.Floor("transactions executed in a block whose base fee is below the minimum gas price", run.Get("tx_executed_while_base_fee_below_min_gas_price"), int64(run.N(15, 100)))
 		run.Floor("storage-clearing transactions where the one-fifth refund cap binds", run.Get("refund_cap_txs_where_the_cap_binds"), int64(run.N(30, 120)))
 		run.Floor("outcome classes", int64(run.DistinctN("outcome")), 6)
 	}
@@ -99,6 +106,75 @@ func ledgerWorld(run *vh.Run, which, label string, wi int, v ledgerCase, nBlocks
 		}
 	}
 	refundCapLeg(run, which, label, w, r, pure, check, v.MaxGas)
+}
+
+// minGasPriceLeg: chains whose genesis sets the fee market's minimum gas price ABOVE the base fee (what a
+// governance change of the minimum does for one block, too): the first block runs with the base fee still below
+// the minimum; end-of-block processing lifts it afterwards. Transactions priced at or above the minimum - dynamic
+// ones with tip + base fee below their cap, gas limits far above the gas consumed - go through the ordinary
+// ledger check (exact charge = gas used x min(tip + base fee, cap)) in the first and in the second block.
+func minGasPriceLeg(run *vh.Run, which, label string, k int) {
+	r := run.RNG("ledger-min-gas-price", k)
+	bf := vh.Pick(r, []int64{7, 1_000_000_000, 50_000_000_000})
+	mgp := new(big.Int).Div(new(big.Int).Mul(big.NewInt(bf), big.NewInt(int64(vh.Pick(r, []int{15, 30, 100, 1000})))), big.NewInt(10))
+	mgpStr := mgp.String()
+	if r.Bool() {
+		mgpStr += "." + vh.Pick(r, []string{"5", "000000000000000001", "999"})
+		mgp.Add(mgp, big.NewInt(1)) // prices are integers: the smallest admissible one is the ceiling
+	}
+	w := vh.NewWorld(r, vh.WorldOpts{Chain: vh.Config{Seed: r.U64(), NumVals: 1, MaxGas: -1, BaseFee: big.NewInt(bf), MinGasPrice: mgpStr, NoFirstBlock: true}, NumEOA: 6, NoCosmos: true,
+		Prog: vh.ProgOpts{MaxLen: 5, Depth: 1}})
+	defer w.C.Cleanup()
+	pure := w.EOAs[:4]
+	w.Pool = w.Pool[4:]
+	for _, a := range pure {
+		w.Track = append(w.Track, a.Addr)
+	}
+	check := func(ob *vh.ObservedBlock, plans []*vh.TxPlan) { ledgerCheck(run, which, label, w, ob, plans, pure) }
+	for blk := 0; blk < 2; blk++ {
+		cur := w.C.BaseFee()
+		below := cur.Cmp(mgp) < 0
+		var plans []*vh.TxPlan
+		for _, s := range pure {
+			to := vh.Pick(r, w.Pool)
+			var data []byte
+			var dst *common.Address = &to
+			gas := uint64(vh.Pick(r, []int{21000, 60_000, 400_000}))
+			if r.Chance(1, 3) { // a creation: gas consumed well above the intrinsic amount, still far below the limit
+				dst, data, gas = nil, vh.Deployer(vh.NewAsm().SStore(1, 7).Op(vm.STOP).Bytes()), 900_000
+			}
+			floor := new(big.Int).Set(mgp)
+			if cur.Cmp(floor) > 0 {
+				floor.Set(cur)
+			}
+			var fs vh.FeeShape
+			switch r.Intn(5) {
+			case 0:
+				fs = vh.FeeShape{Type: r.Intn(2), Price: new(big.Int).Add(floor, big.NewInt(int64(r.Intn(3)))), Kind: "legacy-at-minimum"}
+			case 1:
+				fs = vh.FeeShape{Type: 2, FeeCap: new(big.Int).Set(floor), TipCap: new(big.Int).Set(floor), Kind: "cap-equals-minimum"}
+			default:
+				// tip + base fee lands on [minimum, minimum + a little], the cap is several times that
+				tip := new(big.Int).Sub(floor, cur)
+				tip.Add(tip, big.NewInt(int64(vh.Pick(r, []int{0, 1, 12345}))))
+				fs = vh.FeeShape{Type: 2, FeeCap: new(big.Int).Mul(floor, big.NewInt(int64(2+r.Intn(5)))), TipCap: tip, Kind: "tip-plus-base-fee-below-cap"}
+			}
+			plans = append(plans, w.PlanEth(s, dst, big.NewInt(int64(r.Intn(1000))), gas, data, "ok", &fs))
+		}
+		ob := w.RunPlans(plans, nil, check)
+		if ob == nil || ob.Err != nil {
+			return
+		}
+		for _, res := range ob.Res.TxResults {
+			if vh.HasEvent(res, "ethereum_tx") {
+				if below {
+					run.Count("tx_executed_while_base_fee_below_min_gas_price", 1)
+				} else {
+					run.Count("tx_executed_after_base_fee_was_lifted_to_min_gas_price", 1)
+				}
+			}
+		}
+	}
 }
 
 // refundCapLeg: storage-clearing transactions with gas limits far above the gas consumed, against an exact
